@@ -404,7 +404,7 @@ fn main() {
         run.add("evaluations", 1);
         run.finish();
     }
-    let (per_family, depth) = run.tier.pick((5, 1), (40, 2));
+    let (per_family, depth) = run.tier.pick((40, 2), (100_000, 3));
     let seed_texts = seeds(per_family, depth);
     let n_seeds = seed_texts.len();
     let results = util::par_map(seed_texts, util::n_threads(), |text| {
